@@ -66,7 +66,7 @@ CHECKS = {
    note="Stage 1 of the design (fault-free contention); failing/dead-device stages are added with the fault engine."),
  "C15": dict(engine="migr", level="exploration", ref="DESIGN.md 5 C15",
    technique=TECH + "legacy images from simulated compatibility-mode workloads (clean and crashed) and from the independent writer, migrate() under a simulated destination device with injected faults",
-   text="Sources are v1/v2 images produced by the current tree in compatibility mode under the simulator (clean closes and crash images with active journals and pending retirements) and images synthesised by the independent writer (duplicates in both disk orders, expired newest generations, multi-block records, >256 records, new-style and ambiguous legacy markers). migrate() runs with and without the opt-in, with an existing destination and with write/fsync faults injected into the destination device. Checked: zero writes to and unchanged bytes of the source; on error nothing at the destination path and no temporary sibling; on success the destination decodes (independent codec) as v3 with exactly the source's keys, values, timestamps and absolute expiries, equals a TTL-disabled recovery of a copy of the source, and survives a power loss right after migrate() returned; ambiguous markers fail unless allowed.",
+   text="Sources are v1/v2 images produced by the current tree in compatibility mode under the simulator (clean closes and crash images with active journals and pending retirements) and images synthesised by the independent writer (duplicates in both disk orders, expired newest generations, multi-block records, >256 records, new-style and ambiguous legacy markers). migrate() runs with and without the opt-in, with an existing destination, with a destination that a second simulated thread creates while the copy is under way (it must survive and the migration must fail), and with write/fsync faults injected into the destination device. Checked: zero writes to and unchanged bytes of the source; on error nothing at the destination path and no temporary sibling; on success the destination decodes (independent codec) as v3 with exactly the source's keys, values, timestamps and absolute expiries, equals a TTL-disabled recovery of a copy of the source, and survives a power loss right after migrate() returned; ambiguous markers fail unless allowed.",
    note="The feox-migrate binary's argument handling is not simulated (covered by the repository's CLI tests)."),
  "C17": dict(engine="corr", level="exploration", ref="DESIGN.md 5 C17",
    technique=TECH + "stored-data corruption as the injected fault: field-aware forging (with recomputed checksums/tokens), bit flips, block swaps/duplication/truncation, random images, invalid sizes",
